@@ -61,7 +61,69 @@ func hexName(seed, n int) string {
 func genAlias(t *rapid.T) Case { return genCaseOpt(t, true) }
 func genCase(t *rapid.T) Case  { return genCaseOpt(t, false) }
 
+// chainCase: referrers that are reachable only through other referrers - a tagged
+// image A, an index S{subject: A} over manifests M1..Mk, referrers R_i{subject: M_i}
+// (and referrers of those), everything untagged except A; then GC, more than once.
+func chainCase(t *rapid.T) Case {
+	c := Case{AutoGC: rapid.Bool().Draw(t, "autoGC")}
+	add := func(s gen.NodeSpec) int { c.Specs = append(c.Specs, s); return len(c.Specs) - 1 }
+	blob := func() int {
+		return add(gen.NodeSpec{Kind: gen.KBlob, Seed: 600 + len(c.Specs), Size: 5 + len(c.Specs), MT: "application/octet-stream"})
+	}
+	cfg := blob()
+	a := add(gen.NodeSpec{Kind: gen.KImage, Config: &gen.Ref{N: cfg}, Layers: []gen.Ref{{N: blob()}}})
+	k := rapid.IntRange(1, 3).Draw(t, "children")
+	var kids []gen.Ref
+	var ms []int
+	for i := 0; i < k; i++ {
+		m := add(gen.NodeSpec{Kind: gen.KImage, Config: &gen.Ref{N: cfg}, Layers: []gen.Ref{{N: blob()}}})
+		kids = append(kids, gen.Ref{N: m})
+		ms = append(ms, m)
+	}
+	add(gen.NodeSpec{Kind: gen.KIndex, Layers: kids, Subject: &gen.Ref{N: a}, ArtifactType: "application/vnd.verif.sig"})
+	for _, m := range ms {
+		depth := rapid.IntRange(1, 3).Draw(t, "chainDepth")
+		subj := m
+		for j := 0; j < depth; j++ {
+			kind := rapid.SampledFrom([]string{gen.KImage, gen.KArtifact}).Draw(t, "refKind")
+			sp := gen.NodeSpec{Kind: kind, Subject: &gen.Ref{N: subj}, ArtifactType: "application/vnd.verif.sbom"}
+			if kind == gen.KImage {
+				sp.Config = &gen.Ref{N: cfg}
+				sp.Layers = []gen.Ref{{N: blob()}}
+			} else {
+				sp.Layers = []gen.Ref{{N: blob()}}
+			}
+			subj = add(sp)
+		}
+	}
+	// an unrelated untagged manifest (garbage) and an orphan referrer chain
+	add(gen.NodeSpec{Kind: gen.KImage, Config: &gen.Ref{N: cfg}, Layers: []gen.Ref{{N: blob()}}})
+	order := rapid.Permutation(seq(len(c.Specs))).Draw(t, "order")
+	for _, id := range order {
+		c.Ops = append(c.Ops, Op{Op: "push", N: id})
+	}
+	c.Ops = append(c.Ops, Op{Op: "tag", N: a, Ref: "latest"})
+	for i := rapid.IntRange(1, 3).Draw(t, "gcs"); i > 0; i-- {
+		c.Ops = append(c.Ops, Op{Op: "gc"})
+		if rapid.Bool().Draw(t, "reopenBetween") {
+			c.Ops = append(c.Ops, Op{Op: "reopen"})
+		}
+	}
+	return c
+}
+
+func seq(n int) []int {
+	out := make([]int, n)
+	for i := range out {
+		out[i] = i
+	}
+	return out
+}
+
 func genCaseOpt(t *rapid.T, alias bool) Case {
+	if !alias && rapid.IntRange(0, 7).Draw(t, "chainShape") == 0 {
+		return chainCase(t)
+	}
 	max := 12
 	steps := 14
 	if vt.Thorough() {
@@ -313,7 +375,23 @@ func runCase(c Case) (res vt.Result, fail *vt.Fail) {
 	movedTag := false
 	js := func() []byte { return vt.MustJSON(c) }
 
+	// unindexed: blobs that were stored but linked by nothing when the store was last
+	// reopened. The reloaded graph does not know them as nodes; a manifest pushed
+	// afterwards links them, and the auto-GC cascade then passes them over (known
+	// finding C09/unindexed-blob-survives-autogc).
+	unindexed := map[int]bool{}
 	checkAll := func(when string) *vt.Fail {
+		if c.AutoGC {
+			for id := range unindexed {
+				if m.Has(id) {
+					continue
+				}
+				if ok, err := s.Exists(ctx, d.Nodes[id].Desc); err == nil && ok {
+					return vt.Failf("C09/unindexed-blob-survives-autogc", "%s: blob node %d lost its last predecessor in an auto-GC cascade but was not removed: it was stored (linked by nothing) before the store was reopened, so the reloaded graph never recorded it as a node, and graph.Remove only reports dangling successors it knows as nodes", when, id)
+				}
+				delete(unindexed, id)
+			}
+		}
 		if f := orc.CheckOCIState(ctx, s, m, "C09", when); f != nil {
 			return f
 		}
@@ -399,6 +477,23 @@ func runCase(c Case) (res vt.Result, fail *vt.Fail) {
 			s2.AutoGC = c.AutoGC
 			s = s2
 			classes["reopen"] = true
+			{
+				parents := d.Parents()
+				for _, id := range d.CanonIDs() {
+					if d.IsManifest(id) || !m.Has(id) {
+						continue
+					}
+					linked := false
+					for _, p := range parents[id] {
+						if m.Has(p) {
+							linked = true
+						}
+					}
+					if !linked {
+						unindexed[id] = true
+					}
+				}
+			}
 		case "delete":
 			if !m.Has(op.N) {
 				// deleting absent content must fail and change nothing
